@@ -499,7 +499,137 @@ def r5(repo, res):
                found=f"families with that prefix: {hit}", key=f"prefix:{p}")
 
 
+def r6(repo, res):
+    """The wrapper class folded whole against the recording library on random small models of the shape aldy builds: the solutions
+    it yields vs the exhaustive evaluation of the same model; helper exactness (abssum at every optimum, prod in every feasible point)."""
+    import random
+
+    from sa.lpmodel import new_model, wrapper_model
+    from sa.report import seed as _seed, thorough
+
+    w = wrapper_model(repo)
+    prec = module_consts(repo.mod("lpinterface")).get("SOLVER_PRECISON", 1e-5)
+    cls = repo.cls("lpinterface::Gurobi")
+    res.analysed(repo.func("lpinterface::Gurobi.solutions"), repo.func("lpinterface::Gurobi.abssum"), repo.func("lpinterface::Gurobi.prod"))
+    rnd = random.Random(_seed() + 60)
+    bad = {}
+    n_models = n_points = 0
+    try:
+        for trial in range(60 if thorough() else 14):
+            m, lib = new_model(w, f"m{trial}")
+            nb = rnd.randint(2, 7)
+            xs = [w.call("addVar", m, [], dict(vtype="B", name=f"x_{i}")) for i in range(nb)]
+            es = []
+            eqs = []
+            for j in range(rnd.randint(1, 4)):
+                e = w.call("addVar", m, [], dict(lb=-lib.infinity(), ub=lib.infinity(), name=f"E_{j}"))
+                coefs = [rnd.choice([0, 0, 1, 1, 2]) for _ in xs]
+                target = rnd.choice([0.0, 0.4, 1.0, 1.3, 2.0, 2.6])
+                expr = sum(c_ * x for c_, x in zip(coefs, xs)) + e
+                w.call("addConstr", m, [expr <= target], dict(name=f"C_{j}"))
+                w.call("addConstr", m, [expr >= target], dict(name=f"C_{j}"))
+                es.append(e)
+                eqs.append((coefs, target))
+            k = rnd.randint(1, min(3, nb))
+            card = sum(xs[: rnd.randint(2, nb)])
+            w.call("addConstr", m, [card <= k], dict(name="CARD"))
+            if rnd.random() < 0.5:
+                w.call("addConstr", m, [card >= min(k, 1)], dict(name="CARD"))
+            for i in range(1, nb):
+                if rnd.random() < 0.3:
+                    w.call("addConstr", m, [xs[i] <= xs[i - 1]], dict(name=f"ORD_{i}"))
+            weights = {f"E_{j}": rnd.choice([0, 0.5, 2.0, 3]) for j in range(len(es)) if rnd.random() < 0.5}   # explicit zero and fractional weights
+            prods = []
+            if nb >= 3 and rnd.random() < 0.6:
+                r_ = w.call("addVar", m, [], dict(vtype="B", name="P_0"))
+                fac = rnd.sample(xs, rnd.randint(1, min(3, nb)))
+                w.call("prod", m, [r_, fac], {})
+                prods.append((r_, fac))
+            lin = [rnd.choice([0.0, 0.1, 0.25, 0.5]) for _ in xs]
+            pcost = [rnd.choice([0.2, 0.7]) for _ in prods]
+            obj = w.call("abssum", m, [es], dict(coeffs=weights or None)) + sum(c_ * x for c_, x in zip(lin, xs)) \
+                + sum(c_ * r_ for c_, (r_, _) in zip(pcost, prods))
+
+            def own_objective(active):
+                """The objective of an assignment computed from the model's definition (weights default to 1; 0 is a weight)."""
+                xv = [1 if f"x_{i}" in active else 0 for i in range(nb)]
+                tot = sum(c_ * v_ for c_, v_ in zip(lin, xv))
+                for j, (coefs_, target_) in enumerate(eqs):
+                    tot += weights.get(f"E_{j}", 1) * abs(target_ - sum(c_ * v_ for c_, v_ in zip(coefs_, xv)))
+                for c_, (r_, fac) in zip(pcost, prods):
+                    tot += c_ * int(all(f_.name() in active for f_ in fac))
+                return tot
+            w.call("setObjective", m, [obj], {})
+            gap = rnd.choice([0.0, 0.1, 0.5])
+            oracle = lib.enumerate()          # exhaustive evaluation of the model as built (before any cut)
+            n_models += 1
+            n_points += len(oracle)
+            binaries = [v for v in lib.integer_vars()]
+            table = {frozenset(v.name() for v in binaries if val[v] == 1): o for o, val in oracle}
+            tag = f"model {trial} ({nb} binaries, {len(es)} error terms, {len(prods)} products, gap {gap})"
+            # products: in every feasible point the product variable equals the AND of its factors
+            for o, val in oracle:
+                for r_, fac in prods:
+                    if val[r_] != int(all(val[f_] == 1 for f_ in fac)):
+                        bad.setdefault("prod", f"{tag}: feasible point with product variable {val[r_]} and factors {[val[f_] for f_ in fac]}")
+            got = []
+            for status, o, names in w.call("solutions", m, [gap], {}):
+                # helper exactness at this optimum: every abssum helper equals the absolute value of its variable
+                for v in lib.vars:
+                    if v.name().startswith("ABS_"):
+                        src = next((u for u in lib.vars if u.name() == v.name()[4:]), None)
+                        if src is not None and abs(v.value - abs(src.value)) > 1e-7:
+                            bad.setdefault("abssum", f"{tag}: at a yielded solution the helper of {src.name()} is {v.value}, |value| is {abs(src.value)}")
+                got.append((frozenset(names), o, status))
+                if len(got) > len(table) + 2:
+                    bad.setdefault("twice", f"{tag}: more solutions yielded ({len(got)}) than the model has feasible assignments ({len(table)}): the enumeration does not terminate")
+                    break
+            if not oracle:
+                if got:
+                    bad.setdefault("feasible", f"{tag}: yields {got[:1]} although the model is infeasible")
+                continue
+            best = oracle[0][0]
+            ub = (1 + gap) * best
+            if not got or abs(got[0][1] - best) > 1e-7:
+                bad.setdefault("optimum", f"{tag}: first yielded objective {got[0][1] if got else None}, exhaustive optimum {best}")
+            for key, o, status in got:
+                if key not in table:
+                    bad.setdefault("feasible", f"{tag}: yields active binaries {sorted(key)}, which is not a feasible assignment")
+                elif abs(table[key] - o) > 1e-7:
+                    bad.setdefault("feasible", f"{tag}: yields {sorted(key)} with objective {o}; its objective is {table[key]}")
+                elif abs(own_objective(key) - o) > 1e-7:
+                    bad.setdefault("abssum", f"{tag}: {sorted(key)} reported with objective {o}; weighted absolute errors + costs = {own_objective(key)} (weights {weights})")
+                if o > ub + prec + 1e-9:
+                    bad.setdefault("gap", f"{tag}: yields objective {o} beyond (1 + gap) x {best} = {ub}")
+            if len({k_ for k_, _, _ in got}) != len(got):
+                bad.setdefault("twice", f"{tag}: an assignment is yielded twice")
+            if any(got[i][1] > got[i + 1][1] + 1e-9 for i in range(len(got) - 1)):
+                bad.setdefault("order", f"{tag}: objectives not non-decreasing: {[round(g_[1], 4) for g_ in got]}")
+            yielded = {k_: o for k_, o, _ in got}
+            for key, o in table.items():
+                if key in yielded or o > ub - prec:
+                    continue
+                if not any(yk <= key and yo <= o + 1e-9 for yk, yo in yielded.items()):
+                    bad.setdefault("complete", f"{tag}: feasible within-gap assignment {sorted(key)} (objective {o}) is not yielded and contains no yielded assignment that scores no worse")
+    except Unfoldable as e:
+        res.err("C05.R6", f"solver wrapper outside the folding language: {e}")
+        return
+    except Raised as e:
+        res.ob("C05.R6", cls, cls, False, expected="the wrapper builds and enumerates the sample models", found=f"raises {e}", key="models:runs")
+        return
+    res.count("C05.R6:models", n_models)
+    res.count("C05.R6:feasible points enumerated", n_points)
+    clauses = {"optimum": "the first yielded solution is a global optimum", "feasible": "every yielded solution is feasible with the objective value reported for it",
+               "gap": "every yielded solution is within the gap of the optimum", "twice": "no binary assignment is yielded twice", "order": "solutions come in non-decreasing objective order",
+               "complete": "any feasible within-gap assignment that is not yielded has a superset of the active binaries of some yielded solution with no worse objective",
+               "abssum": "at any optimum the helper variable equals the sum of absolute values", "prod": "in every feasible point the product variable equals the logical AND of its factors"}
+    for key, clause in clauses.items():
+        res.ob("C05.R6", cls, cls, key not in bad, expected=clause, found=f"{n_models} models, {n_points} feasible points agree" if key not in bad else bad[key],
+               clause=clause, key=f"models:{key}")
+
+
 def run(repo, res):
+    r6(repo, res)
     r1(repo, res)
     r2(repo, res)
     r3(repo, res)
